@@ -1,8 +1,8 @@
 (* Run/C17.v — comparator for the C17 stress runs. The model's prediction for a
    scenario is derived from the locking discipline: a scenario whose accesses are
    all covered by the obligations of Props/C17.v must show no race report and
-   must satisfy its quiescence post-conditions; the scenario that shares one
-   SecurityManager (a recorded finding) is predicted to race. *)
+   must satisfy its quiescence post-conditions (all five scenarios since the
+   SecurityManager fix). *)
 From Coq Require Import List Bool Arith.
 From Cedar Require Import Model.Lockset.
 Import ListNotations.
@@ -12,13 +12,13 @@ Inductive case := CScen (sc : scenario) (procs workers : nat) (races : nat) (pos
 
 (* each scenario as threads of the lockset model (locks: 0 cache, 1 entry, 2 none;
    locations: 0 sessions map, 1 entry.expiration, 2 config.ECDHPublicKey, 3 send state, 4 recv state) *)
-Definition g (x : nat) : nat := match x with 0 => 0 | 1 => 1 | 3 => 3 | 4 => 4 | _ => 9 end.
+Definition g (x : nat) : nat := match x with 0 => 0 | 1 => 1 | 3 => 3 | 4 => 4 | 5 => 5 | 6 => 6 | _ => 9 end.
 Definition model_threads (sc : scenario) : list thread :=
   match sc with
   | ScCacheBasic => [[Acq 0 MW; Wr 0; Rel 0]; [Acq 0 MR; Rd 0; Acq 1 MW; Rd 1; Rel 1; Rel 0]; [Acq 1 MW; Wr 1; Rel 1]]
   | ScCacheMaint => [[Acq 0 MW; Wr 0; Acq 1 MW; Rd 1; Rel 1; Rel 0]; [Acq 0 MR; Rd 0; Acq 1 MW; Rd 1; Rel 1; Rel 0]; [Acq 1 MW; Wr 1; Rel 1]]
   | ScClientShared => [[Acq 0 MR; Rd 0; Rel 0]; [Acq 0 MW; Wr 0; Rel 0]]      (* per-connection copies: only the cache is shared *)
-  | ScSecmanShared => [[Wr 2]; [Wr 2; Rd 2]]                                    (* shared configuration, no lock *)
+  | ScSecmanShared => [[Acq 5 MW; Wr 5; Rd 5; Rel 5]; [Acq 6 MW; Wr 6; Rd 6; Rel 6]] (* per-handshake copies: private state *)
   | ScStreamDuplex => [[Acq 3 MW; Wr 3; Rel 3]; [Acq 4 MW; Wr 4; Rel 4]]        (* disjoint state: thread-private "locks" *)
   end.
 Definition predicted_race_free (sc : scenario) : bool := forallb (wl g []) (model_threads sc).
